@@ -1175,12 +1175,28 @@ func c07Errors(c *Ctx, walk, step *ssa.Function) {
 	ok := false
 	exemptBad, staleBad := "", ""
 	var pos ssa.Instruction = stepCall
-	for _, st := range storesTo(stepCall.Parent(), "Stride", "To") {
+	// the stores of a stride's To: in the function that calls Step, or in a helper of Walk that is handed Step's results
+	var toStores []*ssa.Store
+	for _, f := range walkFns {
+		toStores = append(toStores, storesTo(f, "Stride", "To")...)
+	}
+	for _, st := range toStores {
 		// the store must be under err != nil and not under any other condition than NodeName != "error"
 		under := false
-		for _, f := range flow.FactsAt(st.Block()) {
+		// the facts that hold at the store: in its block, and — when it sits in a helper with a single call site —
+		// at that call (`if err != nil { w.toError(stride, err) }`)
+		storeFacts := append([]flow.Fact{}, flow.FactsAt(st.Block())...)
+		for fn, depth := st.Parent(), 0; fn != walk && depth < 4; depth++ {
+			sites := callSitesOf(fn, walkFns)
+			if len(sites) != 1 {
+				break
+			}
+			storeFacts = append(storeFacts, flow.FactsAt(sites[0].Block())...)
+			fn = sites[0].Parent()
+		}
+		for _, f := range storeFacts {
 			if bo, isB := f.Cond.(*ssa.BinOp); isB && ssau.IsNilConst(bo.Y) && ((bo.Op == token.NEQ && f.True) || (bo.Op == token.EQL && !f.True)) {
-				for _, d := range phiDefs(bo.X, nil, map[ssa.Value]bool{}) {
+				for _, d := range deepDefs(bo.X, walkFns) {
 					if ex, isEx := d.(*ssa.Extract); isEx && ex.Tuple == ssa.Value(stepCall) && ex.Index == 1 {
 						under = true
 					}
@@ -1236,16 +1252,24 @@ func c07Errors(c *Ctx, walk, step *ssa.Function) {
 		}
 		// the only exemption is "already at the node error": no other comparison of the state's node decides
 		// whether the error is routed
-		for _, f := range flow.FactsAt(st.Block()) {
+		// (the comparisons that decide the store, and — when the error state is made by a helper — those that decide
+		// whether the helper makes one)
+		exemptFacts := append([]flow.Fact{}, storeFacts...)
+		for _, leaf := range deepDefs(st.Val, escope) {
+			if al, isAl := leaf.(*ssa.Alloc); isAl && al.Parent() != st.Parent() {
+				exemptFacts = append(exemptFacts, flow.FactsAt(al.Block())...)
+			}
+		}
+		for _, f := range exemptFacts {
 			bo, isB := f.Cond.(*ssa.BinOp)
 			if !isB || (bo.Op != token.EQL && bo.Op != token.NEQ) {
 				continue
 			}
 			x, y := bo.X, bo.Y
-			if _, is := isFieldLoad(y, "core", "State", "NodeName"); is {
+			if isNodeNameRead(y) {
 				x, y = y, x
 			}
-			if _, is := isFieldLoad(x, "core", "State", "NodeName"); !is {
+			if !isNodeNameRead(x) {
 				continue
 			}
 			if sv, isStr := ssau.ConstString(y); !isStr || sv != "error" {
@@ -1254,7 +1278,7 @@ func c07Errors(c *Ctx, walk, step *ssa.Function) {
 		}
 		// the error state is built from the state this step started from (the loop-carried one), not from the
 		// state the walk was given
-		want := leafSetKey(deepDefs(stepCall.Common().Args[2], escope))
+		want := leafSetKey(resolveThroughStructs(stepCall.Common().Args[2], escope))
 		for _, leaf := range deepDefs(st.Val, escope) {
 			al, isAl := leaf.(*ssa.Alloc)
 			if !isAl {
@@ -1287,7 +1311,7 @@ func c07Errors(c *Ctx, walk, step *ssa.Function) {
 							}
 							for _, src := range deepDefs(cp.Common().Args[0], escope) {
 								if base, is := isFieldLoad(src, "core", "State", "Bs"); is {
-									if leafSetKey(deepDefs(base, escope)) != want {
+									if leafSetKey(resolveThroughStructs(base, escope)) != want {
 										staleBad = c.pos(cp)
 									}
 								}
@@ -1301,6 +1325,12 @@ func c07Errors(c *Ctx, walk, step *ssa.Function) {
 	c.R.Check(exemptBad == "", "C07-R11", "Walk: only a machine already at node error is exempt from the error transition", c.pos(pos), "the error transition is skipped only under NodeName == \"error\"", "whether a Step error is routed to the error node also depends on another comparison of the state's node ("+exemptBad+"): an error at that node is swallowed — no returned error, no transition, the message is dropped")
 	c.R.Check(staleBad == "", "C07-R11", "Walk: the error state carries the bindings of the state the failing step started from", c.pos(pos), "the bindings copied into the error state are those of the state handed to Step", "the error state is built from another state than the one the failing step started from ("+staleBad+"): bindings made earlier in the same walk are lost when a later step fails")
 	c.R.Check(ok, "C07-R5", "Walk: a Step error becomes the error-node transition", c.pos(pos), "under err != nil, Stride.To = {error, bindings with error/lastNode/lastBindings}", "a Step error is not converted into a transition to the error node carrying error, lastNode and lastBindings")
+}
+
+// isNodeNameRead: a read of some State's NodeName.
+func isNodeNameRead(v ssa.Value) bool {
+	_, is := isFieldLoad(v, "core", "State", "NodeName")
+	return is
 }
 
 func extendmKeys(cl *ssa.Call) map[string]bool {
